@@ -32,6 +32,11 @@ proof fn lemma_enc_injective(i: u8, n: u64, j: u8, m: u64)
 {
     lemma_enc_roundtrip(i, n); lemma_enc_roundtrip(j, m);
 }
+proof fn lemma_rt(i: u8, n: u64)
+    ensures n <= 0xff_ffff_ffff_ffffu64 ==> VfsInode(enc(i, n)).sidx() == i && VfsInode(enc(i, n)).sino() == n,
+{
+    if n <= 0xff_ffff_ffff_ffffu64 { lemma_enc_roundtrip(i, n); }
+}
 proof fn lemma_enc_decompose(v: u64)
     ensures enc((v >> 56) as u8, v & 0xff_ffff_ffff_ffffu64) == v,
 {
@@ -116,6 +121,27 @@ impl Vfs {
         } else if self.sb()[ino.sidx() as int] is Some { Route::Backend(ino.sidx(), ino.sino()) } else { Route::Vacant }
     }
 }
+spec fn no_ids(e: Entry) -> Entry { Entry { attr: stat64 { st_uid: 0, st_gid: 0, ..e.attr }, ..e } }   // an entry with its owner ids masked (C07 clauses are about numbering only)
+pub uninterp spec fn backend_root(m: MountPointData) -> Entry;     // the root entry the backend returned from mount() (ghost)
+impl Vfs {
+    // what insert_mount_locked stores (assumed table invariant, mount is not covered): the backend's root entry, already
+    // numbered with the mount's index and with owner ids translated for the client
+    spec fn mount_wf(&self) -> bool {
+        forall|k: u64| #[trigger] self.mp().contains_key(k) ==> self.mp()[k].root_entry == self.entry_out(self.mp()[k].fs_idx, self.mp()[k].ino, backend_root(*self.mp()[k]))
+    }
+    // "Walking pseudo directories crosses into a mounted filesystem's root exactly at its mount path": a pseudo lookup that
+    // lands on a mountpoint returns the mount's root (mount's index, mount's root number, owner ids translated ONCE)
+    spec fn pseudo_lookup_res(&self, r: Result<Entry>, pidx: u8, out: Result<Entry>, ids: bool) -> bool {
+        match r {
+            Err(x) => out == Err::<Entry, Error>(x),
+            Ok(e) => if self.mp().contains_key(e.inode) {
+                    let m = self.mp()[e.inode];
+                    let want = self.entry_out(m.fs_idx, m.ino, backend_root(*m));
+                    out is Ok && (if ids { out->Ok_0 == want } else { no_ids(out->Ok_0) == no_ids(want) })
+                } else { self.conv_entry(pidx, Ok::<Entry, Error>(e), out) },
+        }
+    }
+}
 pub enum Route { Pseudo(u64), Backend(u8, u64), Vacant }
 impl Route {
     spec fn idx(self) -> u8 { match self { Route::Backend(i, _) => i, _ => 0u8 } }
@@ -173,8 +199,6 @@ def routed_fn(name, d, info):
         for p in pnames:
             if p == ino:
                 out.append(n_expr)
-            elif p == 'attr' and setattr_idx is not None:
-                out.append('attr_ids(self.eff_map(%s), false, attr)' % setattr_idx)
             else:
                 out.append(exprs[p])
         return ', '.join(out)
@@ -185,40 +209,59 @@ def routed_fn(name, d, info):
         gate_opt = 'true'
     req = [
         'self.wf()',
-        '''({ let rt = self.route(%(ino)s);
-           (%(gate)s) && (%(gopt)s) ==> match rt {
+        # C06: the backend may be touched only for safe names ("rejected ... before any backend is touched")
+        '''(%(gate)s) ==> match self.route(%(ino)s) {
+               Route::Pseudo(n) => self.root.touch_ok(),
+               Route::Backend(i, n) => self.be(i).touch_ok(),
+               Route::Vacant => true } // [C06.vfs.%(op)s.before]''' % dict(gate=gate, ino=ino, op=name),
+        # C07: exactly the owning backend, with the backend's own inode number and the other arguments unchanged
+        '''match self.route(%(ino)s) {
                Route::Pseudo(n) => self.root.allowed_%(op)s(%(pa)s),
                Route::Backend(i, n) => self.be(i).allowed_%(op)s(%(ba)s),
-               Route::Vacant => true } }) // [C07.%(op)s.route]''' % dict(
-            ino=ino, gate=gate, gopt=gate_opt, op=name, pa=args('n'), ba=args('n', 'i' if d.get('setattr') else None)),
-    ]
+               Route::Vacant => true } // [C07.%(op)s.route]''' % dict(ino=ino, op=name, pa=args('n'), ba=args('n'))]
+    if d.get('setattr'):
+        # C14: owner ids to be set reach the backend translated to the internal range
+        req.append('''match self.route(%(ino)s) {
+               Route::Pseudo(n) => self.root.ids_ok(attr.st_uid, attr.st_gid),
+               Route::Backend(i, n) => self.be(i).ids_ok(to_int(self.eff_map(i), attr.st_uid), to_int(self.eff_map(i), attr.st_gid)),
+               Route::Vacant => true } // [C14.setattr.ids_in]''' % dict(ino=ino))
     conv = d.get('conv')
     if conv == 'entry':
-        bres = 'self.conv_entry(i, self.be(i).res_%s(), r)' % name
+        bres = 'self.conv_entry(i, self.be(i).res_%s(), res)' % name
     elif conv == 'attr':
-        bres = 'self.conv_attr(rt.id(), self.be(i).res_%s(), r)' % name
+        bres = 'self.conv_attr(rt.id(), self.be(i).res_%s(), res)' % name
     elif conv == 'create':
         bres = '''(match self.be(i).res_create() {
-                   Ok(t) => if t.0.inode > 0xff_ffff_ffff_ffffu64 { r is Err } else { r == Ok::<(Entry, Option<u64>, OpenOptions, Option<u32>), Error>((self.entry_out(i, t.0.inode, t.0), t.1, t.2, t.3)) },
-                   Err(x) => r == Err::<(Entry, Option<u64>, OpenOptions, Option<u32>), Error>(x) })'''
+                   Ok(t) => if t.0.inode > 0xff_ffff_ffff_ffffu64 { res is Err } else { res == Ok::<(Entry, Option<u64>, OpenOptions, Option<u32>), Error>((self.entry_out(i, t.0.inode, t.0), t.1, t.2, t.3)) },
+                   Err(x) => res == Err::<(Entry, Option<u64>, OpenOptions, Option<u32>), Error>(x) })'''
     else:
         if mi['ret'] and 'IoctlData' in mi['ret']:
-            bres = 'ioctl_res(r) == self.be(i).res_%s()' % name
+            bres = 'ioctl_res(res) == self.be(i).res_%s()' % name
         else:
-            bres = 'r == self.be(i).res_%s()' % name
+            bres = 'res == self.be(i).res_%s()' % name
     ens = []
     if d.get('names'):
-        ens.append('!(%s) ==> einval(r) // [C06.vfs.%s.gate]' % (gate, name))
+        ens.append('!(%s) ==> einval(res) // [C06.vfs.%s.gate]' % (gate, name))
     if d.get('opt'):
-        ens.append('(%s) && !(%s) ==> enosys(r) // [C12.vfs.%s.%s]' % (gate, gate_opt, name, d['opt']))
+        ens.append('(%s) && !(%s) ==> enosys(res) // [C12.vfs.%s.%s]' % (gate, gate_opt, name, d['opt']))
     ens.append('''({ let rt = self.route(%(ino)s);
            (%(gate)s) && (%(gopt)s) ==> match rt {
-               Route::Pseudo(n) => r == self.root.res_%(op)s(),
+               Route::Pseudo(n) => res == self.root.res_%(op)s(),
                Route::Backend(i, n) => %(bres)s,
-               Route::Vacant => enoent(r) } }) // [C07.%(op)s.result]%(c14)s''' % dict(
+               Route::Vacant => enoent(res) } }) // [C07.%(op)s.result]%(c14)s''' % dict(
         ino=ino, gate=gate, gopt=gate_opt, op=name, bres=bres, c14=('[C14.%s.ids]' % name) if conv else ''))
     sig_subst = [('Self::Inode', 'VfsInode')] if False else []
     return dict(requires=req, ensures=ens)
+
+
+CONV_ENTRY_CLOSURE = ('|e|', 'closure', '|e: Entry| -> (q: Result<Entry>) ensures self.conv_entry(idata.sidx(), Ok::<Entry, Error>(e), q)')
+ATTR_CLOSURE = ('|tp_1|', 'closure', '|tp_1: (stat64, Duration)| -> (q: (stat64, Duration)) ensures q == (self.attr_out(idata, tp_1.0), tp_1.1)')
+SPLICES = {
+    'getattr': [ATTR_CLOSURE], 'setattr': [ATTR_CLOSURE],
+    'create': [('|a|', 'closure', '|a: Entry| -> (q: (Entry, Option<u64>, OpenOptions, Option<u32>)) ensures q == (a, b, c, d)'),
+               ('|tp_1|', 'closure', '|tp_1: (Entry, Option<u64>, OpenOptions, Option<u32>)| -> (q: Result<(Entry, Option<u64>, OpenOptions, Option<u32>)>) ensures match q { Ok(t) => tp_1.0.inode <= 0xff_ffff_ffff_ffffu64 && t == (self.entry_out(idata.sidx(), tp_1.0.inode, tp_1.0), tp_1.1, tp_1.2, tp_1.3), Err(_) => tp_1.0.inode > 0xff_ffff_ffff_ffffu64 }')],
+    'symlink': [CONV_ENTRY_CLOSURE], 'mknod': [CONV_ENTRY_CLOSURE], 'mkdir': [CONV_ENTRY_CLOSURE],
+}
 
 
 def unit(root='/repo'):
@@ -313,6 +356,82 @@ impl vstd::std_specs::convert::FromSpecImpl<u64> for VfsInode {
                      'proof { assert(self.mp().contains_key(1u64)); assert(mnt == self.mp()[1u64]); lemma_enc_roundtrip(mnt.fs_idx, mnt.ino); }')]),
     ]
     items.append(Group('impl Vfs {', vfs_fns))
+    SC = 'impl FileSystem for Vfs'
+    SIGSUB = [('Self::Inode', 'VfsInode'), ('&mut dyn ZeroCopyWriter', '&mut ZW'), ('&mut dyn ZeroCopyReader', '&mut ZR'),
+              ('&mut dyn FsCacheReqHandler', '&mut FsCacheReq'), ('fn read(', 'fn read<ZW: ZeroCopyWriter>('), ('fn write(', 'fn write<ZR: ZeroCopyReader>(')]
+    routed = []
+    import os
+    only = os.environ.get('VFS_ONLY')
+    for name, d in ROUTED.items():
+        if only and name not in only.split(','):
+            continue
+        c = routed_fn(name, d, info)
+        src_sig = fsmodel  # noqa
+        routed.append(Fn(SYNC, SC, name, requires=c['requires'], ensures=c['ensures'], props=['C07'],
+                         sig_subst=[x for x in SIGSUB if True], lenient_sig=True, ret_name='res', canary=True,
+                         splices=[('^', 'after', 'proof { lemma_rt(self.route(%s).idx(), self.route(%s).ino()); }' % (d['ino'], d['ino']))] + SPLICES.get(name, [])))
+    def two(op, a, b, args_p, args_b, conv=None):
+        gate = 'safe_name(%s@)' % ('oldname' if op == 'rename' else 'newname') + (' && safe_name(newname@)' if op == 'rename' else '')
+        okres = 'res == self.root.res_%s()' % op
+        bres = ('self.conv_entry(j, self.be(i).res_%s(), res)' % op) if conv else ('res == self.be(i).res_%s()' % op)
+        return Fn(SYNC, SC, op, ret_name='res', sig_subst=SIGSUB, lenient_sig=True, props=['C07'], canary=True,
+                  requires=['self.wf()', '''(%s) ==> match (self.route(%s), self.route(%s)) {
+                (Route::Pseudo(a), Route::Pseudo(b)) => self.root.touch_ok(),
+                (Route::Backend(i, a), Route::Backend(j, b)) => i == j ==> self.be(i).touch_ok(),
+                _ => true } // [C06.vfs.%s.before]''' % (gate, a, b, op),
+                            '''match (self.route(%s), self.route(%s)) {
+                (Route::Pseudo(a), Route::Pseudo(b)) => self.root.allowed_%s(%s),
+                (Route::Backend(i, a), Route::Backend(j, b)) => i == j ==> self.be(i).allowed_%s(%s),
+                _ => true } // [C07.%s.route]''' % (a, b, op, args_p, op, args_b, op)],
+                  ensures=['!(%s) ==> einval(res) // [C06.vfs.%s.gate]' % (gate, op),
+                           '''(%s) ==> match (self.route(%s), self.route(%s)) {
+                (Route::Vacant, _) => enoent(res),
+                (_, Route::Vacant) => enoent(res),
+                (Route::Pseudo(a), Route::Pseudo(b)) => %s,
+                (Route::Backend(i, a), Route::Backend(j, b)) => if i == j { %s } else { einval(res) },
+                _ => einval(res) } // [C07.%s.cross][C07.%s.result]%s''' % (gate, a, b, okres, bres, op, op, '[C14.link.ids]' if conv else '')],
+                  splices=[('^', 'after', 'proof { lemma_rt(self.route(%s).idx(), self.route(%s).ino()); lemma_rt(self.route(%s).idx(), self.route(%s).ino()); }' % (a, a, b, b))]
+                  + ([('|e|', 'closure', '|e: Entry| -> (q: Result<Entry>) ensures self.conv_entry(idata_new.sidx(), Ok::<Entry, Error>(e), q)')] if conv else []))
+    routed.append(two('rename', 'olddir', 'newdir', '*ctx, a, oldname@, b, newname@, flags', '*ctx, a, oldname@, b, newname@, flags'))
+    routed.append(two('link', 'inode', 'newparent', '*ctx, a, b, newname@', '*ctx, a, b, newname@', conv=True))
+    routed.append(Fn(SYNC, SC, 'lookup', ret_name='res', sig_subst=SIGSUB, lenient_sig=True, props=['C07'], canary=True,
+                     requires=['self.wf()', 'self.mount_wf()', '''!has_slash(name@) ==> match self.route(parent) {
+                Route::Pseudo(n) => self.root.touch_ok(),
+                Route::Backend(i, n) => self.be(i).touch_ok(),
+                Route::Vacant => true } // [C06.vfs.lookup.before]''', '''match self.route(parent) {
+                Route::Pseudo(n) => self.root.allowed_lookup(*ctx, n, name@),
+                Route::Backend(i, n) => self.be(i).allowed_lookup(*ctx, n, name@),
+                Route::Vacant => true } // [C07.lookup.route]'''],
+                     ensures=['has_slash(name@) ==> einval(res) // [C06.vfs.lookup.gate]',
+                              '''!has_slash(name@) ==> match self.route(parent) {
+                Route::Pseudo(n) => self.pseudo_lookup_res(self.root.res_lookup(), 0u8, res, false),
+                Route::Backend(i, n) => self.conv_entry(i, self.be(i).res_lookup(), res),
+                Route::Vacant => enoent(res) } // [C07.lookup.result]''',
+                              '''!has_slash(name@) ==> match self.route(parent) {
+                Route::Pseudo(n) => self.pseudo_lookup_res(self.root.res_lookup(), 0u8, res, true),
+                _ => true } // [C14.lookup.ids]'''],
+                     splices=[('^', 'after', 'proof { lemma_rt(self.route(parent).idx(), self.route(parent).ino()); lemma_contains_push(name@, 47u8, 0u8); }')]))
+    routed.append(Fn(MOD, 'impl Vfs', 'lookup_pseudo', ret_name='res', props=['C07', 'C14'], canary=True,
+                     requires=['self.wf()', 'self.mount_wf()', 'fs.touch_ok()', 'fs.allowed_lookup(*ctx, idata.sino(), name@)'],
+                     ensures=['self.pseudo_lookup_res(fs.res_lookup(), idata.sidx(), res, false) // [C07.lookup_pseudo.cross]',
+                              'self.pseudo_lookup_res(fs.res_lookup(), idata.sidx(), res, true) // [C14.lookup_pseudo.ids]']))
+    routed.append(Fn(SYNC, SC, 'forget', sig_subst=SIGSUB, lenient_sig=True, props=['C07'],
+                     requires=['self.wf()', '''match self.route(inode) {
+                Route::Pseudo(n) => self.root.touch_ok(),
+                Route::Backend(i, n) => self.be(i).touch_ok(),
+                Route::Vacant => true }''', '''match self.route(inode) {
+                Route::Pseudo(n) => self.root.allowed_forget(*ctx, n, count),
+                Route::Backend(i, n) => self.be(i).allowed_forget(*ctx, n, count),
+                Route::Vacant => true } // [C07.forget.route]'''],
+                     splices=[('^', 'after', 'proof { lemma_rt(self.route(inode).idx(), self.route(inode).ino()); }')]))
+    routed.append(Fn(SYNC, SC, 'id_remap', ret_name='res', props=['C14'], requires=['map_ok(self.id_mapping)'],
+                     ensures=['res is Ok', '*final(ctx) == ctx_to_int(self.id_mapping, *old(ctx)) // [C14.ctx.global]']))
+    routed.append(Fn(SYNC, SC, 'id_remap_with_nodeid', ret_name='res', sig_subst=SIGSUB, lenient_sig=True, props=['C14'], requires=['self.wf()'], canary=True,
+                     ensures=['res is Ok',
+                              # "the backend sees the caller's ids ... translated": with the mapping of the mount the request is ROUTED to
+                              '!(self.route(nodeid) is Vacant) ==> *final(ctx) == ctx_to_int(self.eff_map(self.route(nodeid).idx()), *old(ctx)) // [C14.ctx.route]'],
+                     splices=[('^', 'after', 'proof { lemma_rt(self.route(nodeid).idx(), self.route(nodeid).ino()); }')]))
+    items.append(Group('impl Vfs {', routed))
     items.append(Raw('''
 proof fn lemma_contains_push(s: Seq<u8>, x: u8, y: u8)
     requires x != y
@@ -322,6 +441,6 @@ proof fn lemma_contains_push(s: Seq<u8>, x: u8, y: u8)
     if s.push(y).contains(x) { let i = choose|i: int| 0 <= i < s.push(y).len() && s.push(y)[i] == x; assert(i < s.len()); assert(s[i] == x); }
 }
 '''))
-    u = Unit('vfs', items, preludes=['base.rs', 'stdmodel.rs', 'vfs.rs'], generic_tags={'cap': ['C07', 'C06', 'C14']},
+    u = Unit('vfs', items, preludes=['base.rs', 'stdmodel.rs', 'vfs.rs'], generic_tags={'cap': ['C07'], 'touch': ['C06'], 'ids': ['C14']},
              notes='\n'.join(notes))
     return u
